@@ -56,6 +56,12 @@ def untoken(text):
 _space = None
 
 
+def _simp(e):
+    # sort_disjunctions orders arguments by AST id, which depends on the history of the z3
+    # context; switched off so that re-executions produce structurally identical conditions
+    return z3.simplify(e, sort_disjunctions=False)
+
+
 def space():
     return _space
 
@@ -86,7 +92,7 @@ def _b(o):
 
 
 def wrap_bool(e):
-    e = z3.simplify(e)
+    e = _simp(e)
     if z3.is_true(e):
         return True
     if z3.is_false(e):
@@ -95,7 +101,7 @@ def wrap_bool(e):
 
 
 def wrap_int(e):
-    e = z3.simplify(e)
+    e = _simp(e)
     if z3.is_int_value(e):
         return e.as_long()
     return SymInt(e)
@@ -296,6 +302,9 @@ class Space:
         self.model = None  # model of the current path condition, if known
         self.nvars = 0
         self.inputs = {}  # name -> z3 var (for model extraction)
+        self.decided = {}  # AST id -> truth value already fixed on this path (sound shortcut:
+        # the path condition contains that very formula or its negation)
+        self._keep = []
         _reg.G.clear()
 
     def _check(self, *extra):
@@ -318,12 +327,20 @@ class Space:
         self.solver.add(e)
 
     def branch(self, e):
-        e = z3.simplify(e)
+        e = _simp(e)
         if z3.is_true(e):
             return True
         if z3.is_false(e):
             return False
+        eid = e.get_id()
+        if eid in self.decided:
+            return self.decided[eid]
+        if z3.is_not(e):
+            cid = e.arg(0).get_id()
+            if cid in self.decided:
+                return not self.decided[cid]
         h = e.hash()
+        self._keep.append(e)  # keep the AST alive so that its id is not reused on this path
         if self.pos < len(self.plan):
             d, _, ph = self.plan[self.pos]
             if ph != h:
@@ -331,6 +348,7 @@ class Space:
             self.pos += 1
             self._add(e if d else z3.Not(e))
             self.model = None
+            self.decided[eid] = d
             return d
         # new decision: the current model tells one feasible side for free
         m = self.get_model()
@@ -345,17 +363,19 @@ class Space:
             self._add(e)
             if not side:
                 self.model = None
+            self.decided[eid] = True
             return True
         self.plan.append([side, False, h])
         self.pos += 1
         self._add(e if side else z3.Not(e))
+        self.decided[eid] = side
         return side
 
     def assume(self, c):
         if isinstance(c, SymBool):
             c = c.e
         if isinstance(c, z3.BoolRef):
-            c = z3.simplify(c)
+            c = _simp(c)
             if z3.is_true(c):
                 return
             if z3.is_false(c):
@@ -378,7 +398,7 @@ class Space:
             if c:
                 return self.get_model()
             return None
-        c = z3.simplify(c)
+        c = _simp(c)
         if z3.is_false(c):
             return None
         if self._check(c):
@@ -460,7 +480,7 @@ class Ctx:
         if isinstance(cond, SymBool):
             cond = cond.e
         if isinstance(cond, z3.BoolRef):
-            neg = z3.simplify(z3.Not(cond))
+            neg = _simp(z3.Not(cond))
             if z3.is_false(neg):
                 return True
             m = self.sp.satisfiable(neg)
